@@ -718,6 +718,31 @@ def _one_instance(ctx: ProcCtx, p, op, opname, args, props, live, rec, env, boun
                     rec["c04_inconclusive"] = rec.get("c04_inconclusive", 0) + 1
                 else:
                     rec.setdefault("c04_unreproduced", []).append({"kind": o.kind, "where": o.where, "p_ok": p_ok, "q_bad": q_bad})
+            # the same obligations over unbounded sizes with summarised loops (all of thorough, a sample of quick)
+            if not found and (tier == "thorough" or rng.random() < 0.1):
+                try:
+                    cu = getattr(ctx, "_ub_ctx", None)
+                    if cu is None:
+                        cu = ProcCtx(p_ir, Bounds(unbounded=True, stmt_budget=4000), timeout_ms=8000, tag="u")
+                        ctx._ub_ctx = cu
+                    ru = cu.symbolic_run(q_ir, tag=f"uq{cu.queries}_")
+                    violu, inconcu, noblu = cu.check_obligations(q_ir, ru)
+                    rec["c04_unbounded"] = "holds" if not violu and not inconcu else "inconclusive"
+                    for o, cex in violu:
+                        try:
+                            conc_run(p_ir, cex)
+                        except (ConcViolation, Unsupported, TooBig, ZeroDivisionError, RecursionError):
+                            continue
+                        try:
+                            conc_run(q_ir, cex, check_preds=False)
+                        except ConcViolation as cv:
+                            found.append({"kind": o.kind, "where": o.where, "replay": str(cv) + " (found by the unbounded variant)", "cex": cex_to_json(cex)})
+                            rec["c04_unbounded"] = "violated"
+                            break
+                        except (Unsupported, TooBig, ZeroDivisionError, RecursionError):
+                            continue
+                except (Unsupported, TooBig, L.IllFormed) as exu:
+                    rec["c04_unbounded"] = "skipped"
             if found:
                 rec["c04_obl_violation"] = found
         # (d) compiles or is rejected by a documented backend check
